@@ -12,7 +12,7 @@ RULE = ("S-syn listings (3-48 instructions, near-miss vocabularies) x rules that
         "flag settings, expected addresses computed by the plain definition.")
 FLOOR = {"quick": 400, "thorough": 5000}
 ANCHOR_HINTS = ["mnemonic_and_operand", "node_branch_root", "global_definitions", "consumer", "yaml2regex"]
-REQUIRED_EVENTS = ["hits_located", "relation_grid_cells"]
+REQUIRED_EVENTS = ["hits_located", "relation_grid_cells", "token_rules_on_decorated_operands"]
 
 
 def feat(rng):
@@ -157,9 +157,60 @@ def replay_relgrid(ctx, case):
         ctx.disagreement(case, f"relation grid cell: expected {case['want']}, got {str(r[1:2])[:160]}")
 
 
+def token_stratum(ctx, ws, n):
+    """Instructions assembled by `as` and printed by objdump, including AVX-512 operands with glued decorations ({1to16}, {%k1}{z},
+    {rn-sae}) and segment overrides: for a line with operands o_1..o_n, a rule naming one token of each o_k at position k (registers,
+    hexadecimal numbers, decoration words as objdump prints them) must report that line's address. Containment only, no model."""
+    import re
+    from jv import asmgen, refline
+    rng = ctx.rng
+    for _ in range(n):
+        lines = [asmgen.template(rng, 64) for _ in range(40)] + [asmgen.decorated(rng) for _ in range(25)]
+        rng.shuffle(lines)
+        r = asmgen.assemble(ws, lines, 64)
+        if r is None:
+            ctx.inconc("as refused a template batch")
+            continue
+        lp = ws.write("tok.s", r[1])
+        rinsts, _ = refline.read_listing(r[1])
+        cands = [ri for ri in rinsts if not ri.parsed.prefixes and ri.parsed.mnemonic.isalnum() and ri.ops_att]
+        rng.shuffle(cands)
+        for ri in cands[:12]:
+            names = []
+            for o in ri.ops_att:
+                toks = [t for t in re.findall(r"%?[A-Za-z0-9_]+(?:-[a-z]+)?", o.lstrip("$*")) if RG.clean(t) and len(t) >= 2]
+                if not toks:
+                    names = None
+                    break
+                names.append(rng.choice(toks))
+            if not names:
+                continue
+            deco = any("{" in o for o in ri.ops_att)
+            rule = real.dump_rule({"config": {"mnemonics-full-match": True}, "pattern": [{ri.parsed.mnemonic: names}]})
+            res = real.match(ws.write("tok.yaml", rule), lp, ret="list", search="all", only_addr=True)
+            ctx.ran()
+            ctx.event("token_rules_judged")
+            if deco:
+                ctx.event("token_rules_on_decorated_operands")
+            ctx.case(("tok", ri.parsed.mnemonic, tuple(names), ri.raw), True, stratum="objdump tokens" + ("/decorated" if deco else ""),
+                     outcome="found" if res[0] == "ok" and ri.addr in res[1] else "missed")
+            if res[0] != "ok" or ri.addr not in res[1]:
+                ctx.disagreement({"token": True, "rule": rule, "listing": ri.raw + "\n", "addr": ri.addr},
+                                 f"line {ri.raw!r}: each of {names} is a token of the operand at its position, yet all-matches reports {str(res[1:2])[:120]}")
+
+
+def replay_token(ctx, case):
+    ws = real.Workspace()
+    res = real.match(ws.write("tok.yaml", case["rule"]), ws.write("tok.s", case["listing"]), ret="list", search="all", only_addr=True)
+    ctx.ran()
+    if res[0] != "ok" or case["addr"] not in res[1]:
+        ctx.disagreement(case, f"token rule not found on its own line: {str(res[1:2])[:120]}")
+
+
 def run_shard(ctx):
     from jv import real as _real
     relation_grid(ctx, _real.Workspace())
+    token_stratum(ctx, _real.Workspace(), ctx.share(16, 1500))
     d = drive.Driver(ctx, feat, flags="all4", styles=("mixed", "runs", "dups", "regs", "multisec"), classify=classify)
     d.on_parser_disagreement = listing_vs_stream
     d.loop(2000, 250000)
@@ -169,4 +220,6 @@ def run_shard(ctx):
 def replay(ctx, case):
     if case.get("relgrid"):
         return replay_relgrid(ctx, case)
+    if case.get("token"):
+        return replay_token(ctx, case)
     drive.replay_dsl(ctx, case, classify=classify)
